@@ -17,4 +17,4 @@ CONSTANTS MaxDepth = @MAXDEPTH@
           E = 30
           PresetSet = {1}
 INVARIANTS WellFormed FdsOK
-PROPERTIES FailedOpsNoChange MoveSemantics Frame AckedWriteVisible
+PROPERTIES FailedOpsNoChange MoveSemantics MoveRefusal Frame AckedWriteVisible
